@@ -55,6 +55,9 @@ def run_variant(args):
         shutil.copytree(os.path.join(repo, 'dimarray'), os.path.join(d, 'dimarray'),
                         ignore=shutil.ignore_patterns('__pycache__', '*.pyc'))
         st = apply_edit(d, var)
+        for f2, o2, n2 in var.get('more', ()):          # further edits of the same variant (other places / files)
+            if st == 'ok':
+                st = apply_edit(d, dict(var, file=f2, old=o2, new=n2))
         if st != 'ok':
             return var, st, '', 0
         t = time.time()
